@@ -68,6 +68,12 @@ def _judge_dist(c, drv, got):
     if not out and not eucl:
         if [float(x) for x in model] != g.tolist():
             out.append(dict(kind='model', key=f'distance-model:{nd}', detail=dict(got=g.tolist()[:40], model=model[:40])))
+    if not out and eucl and drv.get('wrap'):
+        # the wrapper model (C05_euclidean_is_sqrt): element-wise IEEE sqrt of the squared transform, bit for bit
+        wrap = np.array([int(x) for x in drv['wrap'].split(',')], dtype=np.uint64).view(np.float64)
+        if wrap.tobytes() != g.tobytes():
+            out.append(dict(kind='model', key=f'distance-wrapper-model:{nd}',
+                            detail=dict(got=g.tolist()[:40], model=wrap.tolist()[:40])))
     if spec and spec[0] >= 0 and spec != model:
         out.append(dict(kind='model', key='model-vs-spec', detail=dict(spec=spec[:40], model=model[:40])))
     if drv['flat'] != drv['model']:
@@ -90,7 +96,8 @@ def _eval_single(cases):
     for c in cases:
         k = c['kind']
         if k == 'dist':
-            lines.append(_line('dist', c['shape'], [int(x != 0) for x in c['data']]))
+            lines.append(_line('dist', c['shape'], [int(x != 0) for x in c['data']])
+                         + (' eucl=1' if c.get('metric', 'euclidean2') == 'euclidean' else ''))
         elif k == 'gvor':
             lines.append(_line('gvor', c['shape'], c['data']) if len(c['shape']) == 2 else 'ping')
         elif k == 'dt1d':
